@@ -138,3 +138,218 @@ def apply_cuts(data: bytes, cuts: t.Sequence[int]) -> t.List[bytes]:
         prev = c
     out.append(data[prev:])
     return out
+
+
+# ---------------------------------------------------------------------------------------- attribute descriptions (RFC 4512)
+
+_ALPHA = "abcdefghijklmnopqrstuvwxyzABCDEFGHIJKLMNOPQRSTUVWXYZ"
+_KEYCHAR = _ALPHA + "0123456789-"
+
+
+@st.composite
+def descr(draw: t.Any) -> str:
+    first = draw(st.sampled_from(list(_ALPHA)))
+    rest = draw(st.text(st.sampled_from(list(_KEYCHAR)), max_size=8))
+    return first + rest
+
+
+@st.composite
+def numericoid(draw: t.Any, min_arcs: int = 2) -> str:
+    arcs = draw(
+        st.lists(
+            st.one_of(st.integers(0, 9), st.integers(10, 99999), st.sampled_from([0, 1, 2, 10, 840, 113556])),
+            min_size=min_arcs,
+            max_size=7,
+        )
+    )
+    return ".".join(str(a) for a in arcs)
+
+
+@st.composite
+def attr_desc(draw: t.Any) -> str:
+    base = draw(st.one_of(descr(), descr(), numericoid(), st.sampled_from(["cn", "objectClass", "sAMAccountName", "2.5.4.3"])))
+    opts = draw(st.lists(st.text(st.sampled_from(list(_KEYCHAR)), min_size=1, max_size=6), max_size=2))
+    return base + "".join(";" + o for o in opts)
+
+
+def matching_rule() -> st.SearchStrategy[str]:
+    return st.one_of(descr(), numericoid(), st.sampled_from(["caseExactMatch", "2.5.13.5", "1.2.840.113556.1.4.803"]))
+
+
+# ---------------------------------------------------------------------------------------- filters (abstract form)
+
+
+def filters(
+    attrs: t.Optional[st.SearchStrategy[str]] = None,
+    values: t.Optional[st.SearchStrategy[bytes]] = None,
+    rules: t.Optional[st.SearchStrategy[str]] = None,
+    rfc_text_domain: bool = False,
+    max_leaves: int = 10,
+    allow_empty_sets: bool = True,
+) -> st.SearchStrategy[t.Any]:
+    """Recursive strategy over the 10 filter node kinds.
+
+    rfc_text_domain=True restricts to trees that have an RFC 4515 text form: non-empty and/or sets,
+    substring filters with >= 1 component and no empty component, extensible match with a rule or an
+    attribute, matching rule never the bare word 'dn' unless the DN flag is on."""
+    A = attrs if attrs is not None else text()
+    V = values if values is not None else octets()
+    R = rules if rules is not None else (matching_rule() if rfc_text_domain else text())
+    if rfc_text_domain:
+        R = R.filter(lambda r: r.lower() != "dn")
+        SV = V.filter(lambda b: len(b) > 0)
+    else:
+        SV = V
+
+    @st.composite
+    def sub(draw: t.Any) -> t.Any:
+        initial = draw(st.none() | SV)
+        anys = draw(st.lists(SV, max_size=3))
+        final = draw(st.none() | SV)
+        if rfc_text_domain and initial is None and final is None and not anys:
+            anys = [draw(SV)]
+        return ("sub", draw(A), initial, anys, final)
+
+    @st.composite
+    def ext(draw: t.Any) -> t.Any:
+        rule = draw(st.none() | R)
+        attr = draw(st.none() | A)
+        if rfc_text_domain and rule is None and attr is None:
+            if draw(st.booleans()):
+                rule = draw(R)
+            else:
+                attr = draw(A)
+        return ("ext", rule, attr, draw(V), draw(st.booleans()))
+
+    leaf = st.one_of(
+        st.tuples(st.sampled_from(["eq", "ge", "le", "approx"]), A, V),
+        st.tuples(st.just("present"), A),
+        sub(),
+        ext(),
+    )
+    min_set = 1 if (rfc_text_domain or not allow_empty_sets) else 0
+
+    def extend(kids: t.Any) -> t.Any:
+        return st.one_of(
+            st.tuples(st.sampled_from(["and", "or"]), st.lists(kids, min_size=min_set, max_size=4)),
+            st.tuples(st.just("not"), kids),
+        )
+
+    return st.recursive(leaf, extend, max_leaves=max_leaves)
+
+
+@st.composite
+def deep_filter(draw: t.Any, depth_range: t.Tuple[int, int] = (7, 60), leaf: t.Any = None) -> t.Any:
+    depth = draw(st.integers(*depth_range))
+    f = draw(leaf) if leaf is not None else ("present", "cn")
+    for _ in range(depth):
+        k = draw(st.sampled_from(["not", "and", "or"]))
+        f = ("not", f) if k == "not" else (k, [f])
+    return f
+
+
+def filter_depth(f: t.Any) -> int:
+    d = 0
+    stack = [(f, 0)]
+    while stack:
+        n, k = stack.pop()
+        d = max(d, k)
+        if n[0] in ("and", "or"):
+            stack.extend((c, k + 1) for c in n[1])
+        elif n[0] == "not":
+            stack.append((n[1], k + 1))
+    return d
+
+
+def filter_kinds(f: t.Any) -> t.Set[str]:
+    out = set()
+    stack = [f]
+    while stack:
+        n = stack.pop()
+        out.add(n[0])
+        if n[0] in ("and", "or"):
+            stack.extend(n[1])
+        elif n[0] == "not":
+            stack.append(n[1])
+    return out
+
+
+# ---------------------------------------------------------------------------------------- controls / messages (abstract form)
+
+KNOWN_OIDS = {"1.2.840.113556.1.4.319", "1.2.840.113556.1.4.417", "1.2.840.113556.1.4.2065"}
+
+
+def controls() -> st.SearchStrategy[t.Any]:
+    ctype = st.one_of(numericoid(), text(), st.sampled_from(["1.2.3", "2.16.840.1.113730.3.4.2", ""])).filter(
+        lambda s: s not in KNOWN_OIDS
+    )
+    generic = st.tuples(st.just("generic"), ctype, st.booleans(), st.none() | octets())
+    paged = st.tuples(st.just("paged"), st.booleans(), ints(), octets())
+    sd = st.tuples(st.just("showDeleted"), st.booleans())
+    sdl = st.tuples(st.just("showDeactivatedLink"), st.booleans())
+    return st.one_of(generic, generic, paged, sd, sdl)
+
+
+def control_lists() -> st.SearchStrategy[t.List[t.Any]]:
+    return st.one_of(st.just([]), st.lists(controls(), max_size=3))
+
+
+def result_codes() -> st.SearchStrategy[int]:
+    known = [0, 1, 2, 3, 4, 5, 6, 7, 8, 10, 11, 12, 13, 14, 16, 17, 18, 19, 20, 21, 32, 33, 34, 36, 48, 49, 50, 51, 52, 53,
+             54, 64, 65, 66, 67, 68, 69, 71, 80]
+    return st.one_of(st.sampled_from(known), st.sampled_from([9, 15, 22, 81, 118, 4096, 70000, -1, -128]), ints())
+
+
+def results(big: bool = False) -> st.SearchStrategy[t.Any]:
+    return st.fixed_dictionaries(
+        {
+            "code": result_codes(),
+            "matched": text(big),
+            "diag": text(big),
+            "referral": st.none() | st.lists(text(), max_size=3),
+        }
+    )
+
+
+def msg_ids() -> st.SearchStrategy[int]:
+    return st.one_of(st.integers(0, 300), st.sampled_from([2**31 - 1, 2**31, 127, 128, 255, 256, 65535, 65536]), ints())
+
+
+def message(kinds: t.Optional[t.Sequence[str]] = None, big: bool = False, filt: t.Any = None, ids: t.Any = None) -> st.SearchStrategy[t.Any]:
+    F = filt if filt is not None else st.one_of(filters(), filters(), deep_filter((7, 40)))
+    ID = ids if ids is not None else msg_ids()
+    T = text(big)
+    O = octets(big)
+    base = {"id": ID, "controls": control_lists()}
+    auth = st.one_of(
+        st.tuples(st.just("simple"), T),
+        st.tuples(st.just("sasl"), text(), st.none() | O),
+    )
+    by_kind = {
+        "bindRequest": dict(version=st.one_of(st.just(3), st.integers(1, 127), ints()), name=T, auth=auth),
+        "bindResponse": dict(result=results(big), sasl=st.none() | O),
+        "unbindRequest": dict(),
+        "searchRequest": dict(
+            base=T,
+            scope=st.sampled_from([0, 1, 2]),
+            deref=st.sampled_from([0, 1, 2, 3]),
+            size=st.one_of(st.just(0), nonneg_ints(), ints()),
+            time=st.one_of(st.just(0), nonneg_ints(), ints()),
+            typesOnly=st.booleans(),
+            filter=F,
+            attributes=st.lists(text(), max_size=4),
+        ),
+        "searchResEntry": dict(name=T, attributes=st.lists(st.tuples(text(), st.lists(O, max_size=3)), max_size=4)),
+        "searchResDone": dict(result=results(big)),
+        "searchResRef": dict(uris=st.lists(text(), max_size=4)),
+        "extendedReq": dict(name=text(), value=st.none() | O),
+        "extendedResp": dict(result=results(big), name=st.none() | text(), value=st.none() | O),
+    }
+    ks = list(kinds) if kinds else list(by_kind)
+    alts = []
+    for k in ks:
+        d = dict(base)
+        d["kind"] = st.just(k)
+        d.update(by_kind[k])
+        alts.append(st.fixed_dictionaries(d))
+    return st.one_of(*alts)
